@@ -1169,7 +1169,11 @@ impl InputState<'_> {
             } else {
                 break;
             }
-            let handler = subtrie.get(evt).unwrap();
+            // `get` fails when the keys read so far leave the prefix of this sub-trie (a key that
+            // does not complete any bound sequence): no binding, look again from the longer sequence
+            let Ok(handler) = subtrie.get(evt) else {
+                continue;
+            };
             if let Some(handler) = handler {
                 let cmd = match handler {
                     EventHandler::Simple(cmd) => Some(cmd.clone()),
